@@ -37,6 +37,9 @@ fn check_value(u: &Universe, ty: &Ty, v: u32, dv: &DV, input_len: usize, path: &
         | (Ty::Leaf(Leaf::BitSet), DV::V(u32::MAX, n))
         | (Ty::Leaf(Leaf::BitVec08), DV::V(u32::MAX, n))
         | (Ty::Leaf(Leaf::BitSet08), DV::V(u32::MAX, n)) => {
+            if n.len() > 2 {
+                return Err(format!("bit container with {} elements has bits set (or storage words) beyond its length: comparing or hashing it panics or misbehaves, at {}", n[0].n(), here(path)));
+            }
             return Err(format!("bit container with {} elements (storage for {}) returned from {} input bytes at {}", n[0].n(), n.get(1).map(|x| x.n()).unwrap_or(0), input_len, here(path)));
         }
         (Ty::Prim(_), _) | (Ty::Str, _) | (Ty::Unit, _) | (Ty::Leaf(_), _) => {}
